@@ -4,8 +4,11 @@ further use of whatever came back; validated by TLC against MGTrace.tla: the JSO
 format WireDoc of the abstract state, an unmodified stream must load to the identical graph (same indices,
 vacancies up to the bounds; a stream with vacancies is not a Graph), a mutated stream must give Err or a
 well-formed graph (AdoptOK) whose later behaviour stays inside GraphAbs/StableAbs; a panic is never accepted.
-GraphMap round trips (through its Graph wire format) are part of the C03 driver."""
+GraphMap: histories in which a third of the calls load a foreign Graph stream (repeated node weights, parallel edges,
+a-b plus b-a) through from_graph / bincode / JSON or round-trip the map itself, validated against SGAbs (SGTrace.tla:
+TrLoad = fold of add_edge over the stream; a round trip is a no-op)."""
 from props.mgcommon import *
+import props.sgcommon as sgc
 
 def run(tier, seed):
     run = Run("C17", tier, seed)
@@ -23,6 +26,14 @@ def run(tier, seed):
         run.extra["mutated_streams"] = len([e for e in evs if e.get("op") == "de" and e.get("mutated")])
         run.extra["mutated_accepted"] = len([e for e in evs if e.get("op") == "de" and e.get("mutated") and e.get("ret") == ["s", "ok"]])
         validate(run, "serde histories (%s)" % ("release" if rel else "debug"), evs, "C17")
+    # GraphMap's serde (its wire format is a Graph): loads of foreign streams and own round trips
+    tp = os.path.join(OUT, "traces", "C17-map.ndjson")
+    evs = vh_trace(["sg-random", "--prop", "C17", "--seed", seed, "--segments", 240 if th else 36, "--len", 60], tp)
+    run.extra["graphmap_loads"] = len([e for e in evs if e.get("op") == "load"])
+    run.extra["graphmap_round_trips"] = len([e for e in evs if e.get("op") == "noeffect" and str(e.get("which", "")).startswith("serde_")])
+    res = validate_trace(sgc.TRACE, "SGTrace.cfg", evs, "c17map", parallel=10, chunk_events=3000, timeout=900)
+    run.add_validation("GraphMap serde histories", res)
+    report_rejections(run, res, "sg-random", sgc.TRACE, sgc.sig_fn)
     run.assumptions = ["TLC (incl. its Json module reading the transcoded document: null -> \"none\" / [-1,-1,-1]) and the harness recorder are trusted",
                        "weights are i32; index widths u8, u16, u32 and the tiny Ix4/Ix7 (streams at the index limit); bincode bytes are opaque to the spec (only results and projections are judged)",
                        "mutations: 16 structural JSON mutations and 5 byte-level bincode mutations, sampled"]
